@@ -1041,20 +1041,19 @@ fn published_topics_scenario(out: &mut Out) {
                 let _in = rt.enter();
                 catch(AssertUnwindSafe(|| {
                     let nm = SimpleMetricManager::new();
-                    nm.register_metric(SimpleMetricBuilder::new("m", 1i32));
-                    EoNBuilder::new(el, client).with_group_id(g).with_node_id(*n).with_metric_manager(nm.clone()).build().map(|x| (x, nm))
+                    let nmetric = nm.register_metric(SimpleMetricBuilder::new("m", 1i32));
+                    EoNBuilder::new(el, client).with_group_id(g).with_node_id(*n).with_metric_manager(nm.clone()).build().map(|x| (x, (nm, nmetric)))
                 }))
             };
-            let ((eon, node), nm) = match built {
+            let ((eon, node), (nm, nmetric)) = match built {
                 Ok(Ok(x)) => x,
                 _ => continue,
             };
-            let _ = &nm;
             rt.block_on(async {
                 set_clocks(1_000_000);
                 tokio::spawn(async move { eon.run().await });
                 let dm = SimpleMetricManager::new();
-                dm.register_metric(SimpleMetricBuilder::new("m", 1i32));
+                let dmetric = dm.register_metric(SimpleMetricBuilder::new("m", 1i32));
                 let dh = node.register_device(d, dm.clone());
                 feeder.push(Event::Online);
                 settle().await;
@@ -1062,6 +1061,14 @@ fn published_topics_scenario(out: &mut Out) {
                     dh.enable();
                     settle().await;
                     dh.rebirth();
+                    settle().await;
+                    // data through the library's own SimpleMetricManager: NDATA and DDATA topics
+                    if let Some(m) = &nmetric {
+                        let _ = nm.publish_metric(m.update(|v| *v += 1)).await;
+                    }
+                    if let Some(m) = &dmetric {
+                        let _ = dm.publish_metric(m.update(|v| *v += 1)).await;
+                    }
                     settle().await;
                 }
                 node.rebirth();
